@@ -269,6 +269,16 @@ def run(pid, tier, seed, replay, mode):
             from . import c10
             for r in c10.learned_circuits(rs, 8 if tier == "quick" else 32):
                 yield r, True
+            # densities above and below one that cancel (round 8): two components whose uniform leaves on one variable have
+            # widths 2^-k and 2^k, so that with the other variable missing the children's log-values are +k log 2 and -k log 2 and
+            # add up to exactly zero although neither is zero ("all zero" and "sum zero" are different tests)
+            from deeprob.spn.structure.leaf import Uniform as _Un
+            for _ in range(3 if tier == "quick" else 12):
+                k_ = int(rs.randint(1, 3)); s_ = float(rs.randint(-2, 3))
+                comps_ = [_Prod(children=[_Un(0, start=s_, width=2.0 ** (-k_)), _Be(1, float(rs.randint(1, 16) / 16.0))]),
+                          _Prod(children=[_Un(0, start=s_, width=2.0 ** k_), _Be(1, float(rs.randint(1, 16) / 16.0))])]
+                r_ = _Sum(children=comps_, weights=np.array(G.dyadic_weights(rs, 2), dtype=np.float32)); _aid(r_)
+                yield r_, False
     for root, learned in stream():
         points = make_points(root, rs)
         tab = G.Table(root, points, renorm=learned)      # learned float32 vectors sum to one up to rounding: re-normalised exactly (bounded)
